@@ -320,6 +320,21 @@ func execC06(seg []Ev) []Ev {
 						return nil, err
 					}
 					return step("Add", p, md)
+				case "selfstring":
+					// an integer compared with its own decimal text: the text converts back to exactly that integer
+					if a.Type() != variants.Integer && a.Type() != variants.Long {
+						return nil, fmt.Errorf("not applicable")
+					}
+					txt := variants.VariantFromString(valJSON(a)["s"].(string))
+					x, err := step("Sub", a, txt)
+					if err != nil {
+						return nil, err
+					}
+					r2, err = step("Equal", a, txt)
+					if err != nil {
+						return nil, err
+					}
+					return x, nil
 				default: // addcomm
 					x, err := step("Add", a, b)
 					if err != nil {
@@ -476,7 +491,7 @@ func genC06(g *Gen) {
 			for _, un := range []string{"Not", "Negative"} {
 				g.Run("unary operators x all values", []Ev{{"op": "un", "mgr": mgr, "name": un, "ai": ai, "full": full}})
 			}
-			for _, law := range []string{"negneg", "notnot"} {
+			for _, law := range []string{"negneg", "notnot", "selfstring"} {
 				g.Run("algebraic laws", []Ev{{"op": "law", "mgr": mgr, "law": law, "ai": ai, "bi": ai, "full": full}})
 			}
 			for _, kind := range []string{"array", "string"} {
